@@ -521,6 +521,14 @@ def float_task(p, cfg, rec):
                     bk = getattr(H.FloatingPointHelper, to_p)(want)
                     p.structural('%s %s: helper agrees with struct in both directions' % (fmt, hex(pt)), okv and bk == pt,
                                  detail={'decoded': repr(got), 'platform': repr(want), 'encoded': hex(bk)})
+                    # the arbitrary-precision type read from the same pattern and turned back into a Python number (Decimal based: concrete only)
+                    try:
+                        nf = H.FPNum(pt, fmt).to_float()
+                        okn = (nf == want and _math_copysign(nf) == _math_copysign(want)) or (nf != nf and want != want)
+                    except Exception as ex:
+                        nf, okn = repr(ex), False
+                    if want == want:
+                        p.structural('%s %s: FPNum(pattern).to_float() is the platform value' % (fmt, hex(pt)), okn, detail={'to_float': repr(nf), 'platform': repr(want)})
                     p.res['traces_validated'] += 1
             finally:
                 shims.install(H, ('isinstance', 'int', 'round', 'math'))
